@@ -13,7 +13,7 @@ def catalog():
 
     # small unimodal runs (fast; used by quick tiers)
     add('gauss', like='gauss', n_live=30, n_batch=15, n_eff=100, f_live=0.1)
-    add('gauss_d', like='gauss', n_live=30, n_batch=15, n_eff=100, f_live=0.1, discard=True)
+    add('gauss_d', like='gauss', n_live=30, n_batch=15, n_eff=50, f_live=0.1, discard=True)
     add('gauss_net', like='gauss', n_live=40, n_batch=20, n_networks=1, n_eff=120, f_live=0.1)
     add('two', like='two', n_live=60, n_batch=20, n_eff=150, f_live=0.1, n_points_min=5)
     add('ring_net', like='ring', n_live=50, n_batch=25, n_networks=1, n_eff=150, f_live=0.1,
@@ -21,7 +21,7 @@ def catalog():
     add('half', like='half', n_live=40, n_batch=20, n_eff=120, f_live=0.1)
     add('plateau', like='plateau', n_live=40, n_batch=20, n_eff=120, f_live=0.1)
     add('wrap', like='wrap', n_live=40, n_batch=20, n_eff=120, f_live=0.1, periodic=[0])
-    add('wrap_net', like='wrap', n_live=40, n_batch=20, n_eff=120, f_live=0.1, periodic=[0],
+    add('wrap_net', like='wrap', n_live=40, n_batch=20, n_eff=60, f_live=0.1, periodic=[0],
         n_networks=1, discard=True)
     add('g3_pool_s', like='gauss', n_dim=3, n_live=40, n_batch=20, n_eff=100, f_live=0.1,
         pool_s=2, n_networks=1)
@@ -35,7 +35,7 @@ def catalog():
     add('blob_float', like='gauss', blob='float', n_live=30, n_batch=15, n_eff=80, f_live=0.1)
     add('blob_int_vec', like='gauss', blob='int', vectorized=True, n_live=30, n_batch=15, n_eff=80,
         f_live=0.1)
-    add('blob_two_obj', like='two', blob='two', prior='object', n_live=50, n_batch=20, n_eff=100,
+    add('blob_two_obj', like='two', blob='two', prior='object', n_live=50, n_batch=20, n_eff=60,
         f_live=0.1, n_points_min=5, discard=True)
     add('blob_array_pool', like='gauss', blob='array', pool_l=2, n_live=30, n_batch=14, n_eff=80,
         f_live=0.1)
@@ -56,7 +56,7 @@ def catalog():
     add('obj_array_vec', like='gauss', prior='object_array', vectorized=True, blob='float',
         n_live=30, n_batch=15, n_eff=80, f_live=0.1)
     add('dictfn_vec_net', like='gauss', prior='dictfn', vectorized=True, blob='int', n_networks=1,
-        n_live=40, n_batch=20, n_eff=100, f_live=0.1, discard=True)
+        n_live=40, n_batch=20, n_eff=60, f_live=0.1, discard=True)
     add('pool_l3', like='two', pool_l=3, n_live=50, n_batch=21, n_eff=100, f_live=0.1,
         n_points_min=5, blob='two')
     return c
